@@ -345,7 +345,7 @@ func clip(s string) string {
 	return s
 }
 
-var inputs = []any{nil, 0, 3, "ab", []any{1, 2, 3}, []any{[]any{1, 2}, []any{3}}, map[string]any{"a": 1, "b": []any{1, 2}}, map[string]any{"a": map[string]any{"b": 1}}, []any{}, map[string]any{}, true, 1.5,
+var inputs = []any{nil, 0, 3, "ab", map[string]any{"a1": 10, "": "EMPTY", "a": 5, "1": 7}, []any{1, 2, 3}, []any{[]any{1, 2}, []any{3}}, map[string]any{"a": 1, "b": []any{1, 2}}, map[string]any{"a": map[string]any{"b": 1}}, []any{}, map[string]any{}, true, 1.5,
 	[]any{map[string]any{"a": 1}, map[string]any{"a": 2}}, []any{nil, 1, "x"}}
 
 // templates biased to the preconditions of each rewrite
@@ -354,6 +354,7 @@ var templates = []string{
 	"[(%K, . | %K)]", "[(%K, %A | %K)]", "[(%K, %K | %K)]", "[(%K, %K, . | %K)]", "[(%K, . | %K, %K)]", "[%K, (. | %K)]", "[(%K | %K), %K]", "{a: (%K, . | %K)}", "[(%K, empty | %K)]?", "[(%K, .)| %K]",
 	"[%K, %K]", "[%K, %A]", "[%A, %K, %K]", "[%K]", "[(%K, %K)]", "[%K, [%K, {a: %K}]]", "{a: %K, b: %K}", "{a: %K, b: %A}", "{(%K): %K}?", "{a: %K, a: %K}", "{\"a\": %K, \"b\": {c: %K}}", "{a: [%K, %K]}", "-%K?", "+%K?", "-(%K)?", "[-1, -1.5, +2, -0]", "{a: -1}", "[.[-1]?, .[-1:]?]", "-%A?",
 	// constant indexing
+	".[\"a\\(%K)\"]?", ".[\"\\(%K)\"]?", ".[\"a\\(1)\"] = %K", "path(.[\"a\\(%K)\"])?", ".[\"a\\(1)\":]?", "{\"a\\(1)\": %K}", "{(\"a\\(%K)\"): 1}?", ".a[\"b\\(%K)\"]?", "try (.[\"\\(1)\"] = 1) catch .", "@json \"x\\(%K)\"", "@base64 \"\\(%K)\"?", ".[@text \"a\\(1)\"]?", "\"\\(%K)\\(%A)\"",
 	".[%K]?", ".[%K:%K]?", ".[%K:]?", ".[\"a\"]?", ".a[%K]?", ".[%K][%K]?", "%A | .[%K]?", ".[-1[0]]?", ".[1[0]:]?",
 	// constant-path assignment
 	".a = %K", ".a.b = %A", ".[%K] = %K?", ".a[%K] = 1?", ".[1:2] = [%K]?", ".a[1:] = %A?", "(.a) = %K", ".a.b.c = %K | .a", "try (.a = %K) catch .", "try (.[%K] = 1) catch .", "try (.a.b = 1) catch .", ".[\"a\"] = %K", "(.a, .b) = %K", ".a = (%K, %K)", ".[%K:%K] = %A?", ".a |= %A", ".a += %K?",
@@ -387,7 +388,7 @@ var biased = []string{
 func enumerate(thorough bool, r *common.Rand) []string {
 	// $v / $w: a variable reference compiles to `pop; load`, so it puts a load at the END of an
 	// alternative and a pop at the START of whatever follows (the join point of a comma/if/try)
-	atoms := []string{".", "1", "\"a\"", "null", ".a", "empty", "[.]", "$__loc__.line", "[]", "-1", "$v", "$w"}
+	atoms := []string{".", "1", "\"a\"", "null", ".a", "empty", "[.]", "$__loc__.line", "[]", "-1", "$v", "$w", "\"a\\(1)\""}
 	un := []string{"[%s]", "{a: %s}", "-(%s)", "(%s)?", ".[%s]?", "[%s, 2]", "{(%s|tostring): 1}", "first(%s)", "(%s) as $x | $x", "[%s] | length", "path(%s)?", "(%s) |= 1", "(%s) = 1", "try (%s) catch 1", "label $l | %s"}
 	bin := []string{"%s, %s", "%s | %s", "%s // %s", "%s + %s", "(%s)[%s]?", "[%s, %s]", "{a: %s, b: %s}", "%s == %s", "%s and %s", "if %s then %s else 3 end", "reduce (%s) as $x (0; %s)", "(%s) as $x | %s"}
 	l1 := atoms
